@@ -382,7 +382,7 @@ def c05(case, trace):
             last_attempt[trk] = ok
         for name, kw in t["events"]:
             if name == "track_playback_started":
-                trk = int(kw["tl_track"].track.uri.split(":t")[1])
+                trk = int(kw["tl_track"].track.uri.rsplit("t", 1)[1])
                 dl = t.get("delivered")
                 if k == "deliver" and dl is not None and dl[0] == "stream_changed":
                     # legitimate when the reported stream is the announced track's own URI (set_uri is
@@ -390,7 +390,7 @@ def c05(case, trace):
                     # track was accepted (an older stream_changed may confirm a newer accepted switch),
                     # or the change that made this entry the pending one was accepted (a later,
                     # refused end-of-track attempt on the same entry does not take that back)
-                    if (dl[1] is None or int(dl[1].split(":t")[1]) != trk) and last_attempt.get(trk) is not True \
+                    if (dl[1] is None or int(dl[1].rsplit("t", 1)[1]) != trk) and last_attempt.get(trk) is not True \
                             and prov.get(kw["tl_track"].tlid) is not True:
                         yield ("started_only_if_accepted", {"call": k},
                                "track_playback_started for a track the audio layer did not switch to "
